@@ -84,7 +84,7 @@ Module ASetT.
 Import Model.ASet Proofs.ASetWrite.
 
 Lemma read_strings_good : forall n a p acc,
-  goodP (fun l p' => p <= p' /\ length l = (n + length acc)%nat) (read_strings n a p acc).
+  goodP (fun l p' => p <= p' <= N.max p (size a) /\ length l = (n + length acc)%nat) (read_strings n a p acc).
 Proof.
   induction n as [|n IH]; intros a p acc; cbn [read_strings].
   - cbn [goodP fst snd]. rewrite rev_length. split; [lia | reflexivity].
@@ -93,7 +93,7 @@ Proof.
 Qed.
 
 Lemma read_group_good : forall bits flags a p acc,
-  goodP (fun l p' => p <= p' /\ length l = (length bits + length acc)%nat) (read_group bits flags a p acc).
+  goodP (fun l p' => p <= p' <= N.max p (size a) /\ length l = (length bits + length acc)%nat) (read_group bits flags a p acc).
 Proof.
   induction bits as [|b r IH]; intros flags a p acc; cbn [read_group].
   - cbn [goodP fst snd length]. split; [lia | reflexivity].
@@ -104,7 +104,7 @@ Proof.
 Qed.
 
 Lemma read_groups_good : forall groups mf a p acc,
-  goodP (fun l p' => p <= p' /\ length l = (32 * length groups + length acc)%nat) (read_groups groups mf a p acc).
+  goodP (fun l p' => p <= p' <= N.max p (size a) /\ length l = (32 * length groups + length acc)%nat) (read_groups groups mf a p acc).
 Proof.
   induction groups as [|g r IH]; intros mf a p acc; cbn [read_groups].
   - cbn [goodP fst snd length]. split; [lia | reflexivity].
@@ -119,14 +119,14 @@ Proof.
 Qed.
 
 (* one iteration of the set loop: at least the 4 bytes of main_flags are consumed, inside the data; the set has 257 entries *)
-Theorem read_set_good a p : goodP (fun s p' => p + 4 <= p' /\ p + 4 <= size a /\ length s = 257%nat) (read_set a p).
+Theorem read_set_good a p : goodP (fun s p' => p + 4 <= p' <= size a /\ length s = 257%nat) (read_set a p).
 Proof.
   unfold read_set. destruct (label_res a p 0) as [(lbl & -> & Hin)| ->]; [|reflexivity].
   destruct (u32_res a p) as [mf Hv|]; [|reflexivity].
   pose proof (read_groups_good (range GROUPS) mf a (p + 4) [lbl]) as G.
   destruct (read_groups (range GROUPS) mf a (p + 4) [lbl]) as [[l1 p1]|e|k]; cbn [goodP fst snd bind] in *; [|exact G|exact G].
   destruct G as [G1 G2]. unfold range in G2. rewrite map_length, seq_length in G2. unfold GROUPS in G2. cbn [length] in G2.
-  rewrite rev_length. split; [lia|]. split; [lia|]. lia.
+  rewrite rev_length. split; lia.
 Qed.
 
 Definition len257 (s : list (option bytes)) : Prop := length s = 257%nat.
@@ -138,7 +138,7 @@ Proof.
   induction fuel as [|fuel IH]; intros pos acc Hf Hacc; cbn [read_sets];
     (destruct (N.leb_spec (size a) pos) as [Hle|Hgt]; [apply Forall_rev; exact Hacc|]); [lia|].
   pose proof (read_set_good a pos) as G. destruct (read_set a pos) as [[s p']|e|k]; cbn [goodP fst snd bind] in *; [|exact G|exact G].
-  destruct G as (G1 & _ & G3). apply IH; [lia|]. constructor; [exact G3 | exact Hacc].
+  destruct G as (G1 & G3). apply IH; [lia|]. constructor; [exact G3 | exact Hacc].
 Qed.
 
 Theorem from_archive_total a :
@@ -162,7 +162,8 @@ Theorem from_archive_fuel_never_exhausted a : from_archive a <> Err EOutOfFuel.
 Proof. pose proof (from_archive_total a) as T. intros E. rewrite E in T. destruct T; discriminate. Qed.
 Theorem from_archive_wf a v : from_archive a = Ok v -> wf_aset v.
 Proof. pose proof (from_archive_total a) as T. intros E. rewrite E in T. exact T. Qed.
-Theorem read_set_advances a p s p' : read_set a p = Ok (s, p') -> p + 4 <= p' /\ p + 4 <= size a /\ length s = 257%nat.
+(* ... and every flags word and string cell the flags announce lies inside the data: a record announcing more is rejected *)
+Theorem read_set_advances a p s p' : read_set a p = Ok (s, p') -> p + 4 <= p' <= size a /\ length s = 257%nat.
 Proof. pose proof (read_set_good a p) as G. intros E. rewrite E in G. exact G. Qed.
 
 (* every byte string *)
@@ -204,20 +205,20 @@ Definition entry_okb (n : nat) (e : rentry) : bool :=
   match e with RStr _ _ => true | RTyped b _ _ _ _ => (b <? n)%nat end.
 
 Lemma read_flag_str_good a p flags idx :
-  goodP (fun _ p' => p <= p') (match read_flag_str a p flags idx with (Ok v, p') => Ok (v, p') | (Err e, _) => Err e | (Panic k, _) => Panic k end).
+  goodP (fun _ p' => p <= p' <= N.max p (size a)) (match read_flag_str a p flags idx with (Ok v, p') => Ok (v, p') | (Err e, _) => Err e | (Panic k, _) => Panic k end).
 Proof.
   unfold read_flag_str. destruct (orb _ _); [cbn [goodP fst snd]; lia|].
   destruct (str_res a p) as [v Hv|]; cbn [goodP fst snd]; [lia | reflexivity].
 Qed.
 Lemma read_color_good a p :
-  goodP (fun _ p' => p <= p') (match read_color a p with (Ok v, p') => Ok (v, p') | (Err e, _) => Err e | (Panic k, _) => Panic k end).
+  goodP (fun _ p' => p <= p' <= N.max p (size a)) (match read_color a p with (Ok v, p') => Ok (v, p') | (Err e, _) => Err e | (Panic k, _) => Panic k end).
 Proof.
   unfold read_color. destruct (bytes_res a p 4 ltac:(lia)) as [(bs & -> & Hl & Hs)|(p' & ->)]; [|reflexivity].
   change (N.to_nat 4) with 4%nat in Hl.
   destruct bs as [|b0 [|b1 [|b2 [|b3 [|b4 r]]]]]; cbn [length] in Hl; try lia. cbn [goodP fst snd]. lia.
 Qed.
 Lemma read_typed_good k a p :
-  goodP (fun _ p' => p <= p') (match read_typed k a p with (Ok v, p') => Ok (v, p') | (Err e, _) => Err e | (Panic k, _) => Panic k end).
+  goodP (fun _ p' => p <= p' <= N.max p (size a)) (match read_typed k a p with (Ok v, p') => Ok (v, p') | (Err e, _) => Err e | (Panic k, _) => Panic k end).
 Proof.
   destruct k; cbn [read_typed].
   - apply read_color_good.
@@ -227,7 +228,7 @@ Qed.
 
 Lemma read_entries_good a flags : forall es sp p,
   forallb (entry_okb (length flags)) es = true ->
-  goodP (fun _ p' => p <= p') (read_entries a flags es sp p).
+  goodP (fun _ p' => p <= p' <= N.max p (size a)) (read_entries a flags es sp p).
 Proof.
   induction es as [|e r IH]; intros sp p Hok; cbn [read_entries].
   - cbn [goodP fst snd]. lia.
@@ -246,7 +247,7 @@ Qed.
 (* one record: at least 8 bytes (4 flag bytes + the name cell) are consumed inside the data *)
 Theorem from_stream_with_good rb re a p :
   forallb (entry_okb 4) rb = true -> forallb (entry_okb 8) re = true ->
-  goodP (fun _ p' => p + 8 <= p' /\ p + 8 <= size a) (from_stream_with rb re a p).
+  goodP (fun _ p' => p + 8 <= p' <= size a) (from_stream_with rb re a p).
 Proof.
   intros Hb He. unfold from_stream_with. destruct (u8_res a p) as [raw Hraw|]; [|reflexivity].
   set (fc := if N.land raw 1 =? 1 then 7 else 3).
@@ -274,9 +275,9 @@ Qed.
 Definition tables_ok : forallb (entry_okb 4) r_base = true /\ forallb (entry_okb 8) r_ext = true.
 Proof. split; vm_compute; reflexivity. Qed.
 
-Theorem from_stream_good a p : goodP (fun _ p' => p + 8 <= p' /\ p + 8 <= size a) (from_stream a p).
+Theorem from_stream_good a p : goodP (fun _ p' => p + 8 <= p' <= size a) (from_stream a p).
 Proof. apply from_stream_with_good; apply tables_ok. Qed.
-Theorem from_stream_advances a p sp p' : from_stream a p = Ok (sp, p') -> p + 8 <= p' /\ p + 8 <= size a.
+Theorem from_stream_advances a p sp p' : from_stream a p = Ok (sp, p') -> p + 8 <= p' <= size a.
 Proof. pose proof (from_stream_good a p) as G. intros E. rewrite E in G. exact G. Qed.
 Theorem from_stream_no_panic a p k : from_stream a p <> Panic k.
 Proof. pose proof (from_stream_good a p) as G. intros E. rewrite E in G. exact G. Qed.
